@@ -607,7 +607,7 @@ func httpWant(c httpCase, r, refRig *rig.Rig) *want {
 
 func TestCheck(t *testing.T) {
 	c := engine.Start(t, "C11")
-	c.SetRule("E1: (direct) full product strings × redirect-URI shapes × response_mode × response_type × {success,error} × session_state on op.AuthResponseURL / op.AuthResponseFormPost; (handler) the same product on op.AuthResponse / op.AuthRequestError / op.TryErrorRedirect with a crafted stored request; (http) full product router × URI × mode × type × {success, 4 error paths} crossed with ≤1 deviation in {string, session_state, storage error kind}; every output decoded like the receiver (query / raw fragment / HTML tokeniser) and compared byte for byte; (history) every sequence of 2 (thorough also 3, values: at most one call deviating) response-producing calls over 21 calls × 3 value triples × writer fault at body byte {0,1,middle,len-1,never} for every earlier call, and (history-allpos) every byte position of an interrupted AuthResponseFormPost followed by a second response: the LAST response must satisfy the decoding oracle and decode exactly as the same call does in a fault-free history; distinct = (oracle rule, observed outcome class)")
+	c.SetRule("E1: (direct) full product strings × redirect-URI shapes × response_mode × response_type × {success,error} × session_state on op.AuthResponseURL / op.AuthResponseFormPost; (handler) the same product on op.AuthResponse / op.AuthRequestError / op.TryErrorRedirect with a crafted stored request; (http) full product router × URI × mode × type × {success, 4 error paths} crossed with ≤1 deviation in {string, session_state, storage error kind}; every output decoded like the receiver (query / raw fragment / HTML tokeniser) and compared byte for byte; (uri-*) the redirect URI itself generated as scheme(8) × authority(11) × path(27) × registered query(18) × fragment(4) with the characters URL codecs treat specially inside every component, full products over 2-4 of these dimensions × mode crossed with ≤1 deviation elsewhere, on the encoders, the handlers and both routers; the Location / form action is compared with the registered redirect URI component by component (scheme, userinfo, host, port, path byte for byte, registered pairs as a user agent decodes them); (history) every sequence of 2 (thorough also 3, values: at most one call deviating) response-producing calls over 21 calls × 3 value triples × writer fault at body byte {0,1,middle,len-1,never} for every earlier call, and (history-allpos) every byte position of an interrupted AuthResponseFormPost followed by a second response: the LAST response must satisfy the decoding oracle and decode exactly as the same call does in a fault-free history; distinct = (oracle rule, observed outcome class)")
 	c.Assume("net/url query parsing and golang.org/x/net/html tokenisation behave like a user agent's",
 		"redirect URI that already has a fragment, fragment mode: the old fragment may be replaced (DESIGN §1.6)",
 		"scope / token_type / expires_in: integrity when present, absence is no violation (DESIGN §1.6)",
@@ -615,6 +615,7 @@ func TestCheck(t *testing.T) {
 		"U+0000 and bare CR cannot be written into an HTML attribute (parsers yield U+FFFD / LF): in form_post these two arrive as HTML carries them",
 		"implicit-flow responses of this library never contain session_state (not produced): not demanded",
 		"LegacyServer router answers authorize-request validation errors with JSON instead of a redirect: not demanded",
+		"redirect URI vs Location: host case and default port of http(s), hex-digit case of escapes, escapes of unreserved characters, dot segments, spelling of userinfo / host escapes are not judged; a registered path that is not RFC 3986 syntax is compared percent-decoded",
 		"history part: hidden state is looked for in one process on one P with the collector off during a history (worker subprocesses); whether a failed body write is reported to the caller is not judged; a storage may return the same *oidc.Error value for every request")
 
 	lvlDirect := engine.Pick(c, 1, 2)
@@ -685,6 +686,8 @@ func TestCheck(t *testing.T) {
 	lap("http")
 	// --- redirect-URI shape family as a product (shapes_test.go) ---------------
 	runShapeParts(c, lap)
+	// --- identifier alphabet of the redirect URI itself (urigen_test.go) -------
+	runURIGenParts(c, lap)
 	// --- part 4: histories (history_test.go) ---------------------------------
 	runHistoryParts(c)
 	lap("history")
